@@ -4,8 +4,11 @@ import (
 	"bufio"
 	"fmt"
 	"os"
+	"regexp"
 	"strings"
 )
+
+var simLoc = regexp.MustCompile(` line \d+, col \d+ to line \d+, col \d+ of module \w+>?\s*$`)
 
 // Edge is one labelled transition of a dumped state graph.
 type Edge struct {
@@ -151,8 +154,9 @@ func LoadSim(path string) ([]SimStep, error) {
 			continue
 		}
 		lab := ln[4:]
-		if k := strings.LastIndex(lab, " line "); k >= 0 {
-			lab = lab[:k]
+		// "<Act(args) line 68, col 3 to line 73, col 64 of module M>": cut at the location suffix
+		if m := simLoc.FindStringIndex(lab); m != nil {
+			lab = lab[:m[0]]
 		}
 		var st []string
 		i += 2 // skip STATE_n ==
